@@ -155,3 +155,37 @@ fn k_prune_chain2_mixed() {
     assert!(sk_of(&o1.1) == h[3] && o1.0 == a[3] && o1.1.is_hybridized() == y[3], "prune touched another right");
     std::mem::forget(msk);
 }
+
+fn hint(h: bool) -> EncryptionHint {
+    if h { EncryptionHint::Hybridized } else { EncryptionHint::Classic }
+}
+
+/// update_msk where one right leaves the universe while ANOTHER enters it in the same update (as many rights after as
+/// before): the right outside the structure is dropped (C05 / C03), the kept right keeps its chain, the new right is
+/// created activated with the flavour of its hint.
+#[kani::proof]
+#[kani::unwind(4)]
+#[kani::stub(zeroize::optimization_barrier, nop_barrier)]
+#[kani::stub(alloc::fmt::format, no_format)]
+fn k_update_swaps_a_right() {
+    let h = distinct4();
+    let (hyb0, hyb9, new_hint): (bool, bool, bool) = (kani::any(), kani::any(), kani::any());
+    let mut msk = mk_msk(elt());
+    msk.secrets.map.insert(Right(vec![]), ll![(true, secret(h[0], hyb0)), (true, secret(h[1], hyb0))]);
+    msk.secrets.map.insert(Right(vec![9]), ll![(true, secret(h[2], hyb9))]);
+    let mut rng = SymRng;
+    let mut rights = HashMap::new();
+    rights.insert(Right(vec![]), (hint(hyb0), AttributeStatus::EncryptDecrypt));
+    rights.insert(Right(vec![1]), (hint(new_hint), AttributeStatus::EncryptDecrypt));
+    let res = update_msk(&mut rng, &mut msk, rights);
+    assert!(res.is_ok());
+    kani::cover!(new_hint && !hyb9, "hybridized right added while a classic one is removed");
+    assert!(!msk.secrets.contains_key(&Right(vec![9])), "update kept a right outside the structure (one removed while one added)");
+    assert!(msk.secrets.len() == 2, "update must leave exactly the rights of the structure");
+    let c = msk.secrets.get(&Right(vec![])).unwrap();
+    assert!(c.len() == 2 && sk_of(&c.front().unwrap().1) == h[0] && sk_of(&c.back().unwrap().1) == h[1], "kept right lost / changed secrets");
+    let n = msk.secrets.get(&Right(vec![1])).unwrap();
+    assert!(n.len() == 1 && n.front().unwrap().0 && n.front().unwrap().1.is_hybridized() == new_hint, "new right: one activated secret of the hinted flavour");
+    std::mem::forget(res);
+    std::mem::forget(msk);
+}
